@@ -19,113 +19,8 @@ var curveBits = map[string]int{"crypto/elliptic.P256()": 256, "crypto/elliptic.P
 var hashName = map[string]string{"5": "SHA256", "6": "SHA384", "7": "SHA512"}
 
 func runC15(c *Ctx) {
-	getHasher := c.Fn("util/ecsigner", "getHasher")
-	pec := c.Fn("jwsutil", "parseEllipticCurve")
-	sign := c.Method("util/ecsigner", "Signer", "Sign")
-	if getHasher == nil || pec == nil || sign == nil {
-		c.Unresolved("C15.X1", "ecsigner.getHasher / jwsutil.parseEllipticCurve / (*ecsigner.Signer).Sign")
+	if !c.signerVerifierTables("C15.X1") {
 		return
-	}
-	// ---- X1: signer table  curve -> hash
-	c.Analysed(getHasher)
-	signer := map[string]string{}
-	forEachInstr(getHasher, func(in ssa.Instruction) {
-		bo, ok := in.(*ssa.BinOp)
-		if !ok || bo.Op != token.EQL || c.Path(bo.X, nil) != "$0" {
-			return
-		}
-		for _, e := range boolEdges(bo, true) {
-			if r, isR := e.to.Instrs[len(e.to.Instrs)-1].(*ssa.Return); isR {
-				signer[c.Path(bo.Y, nil)] = c.Path(r.Results[0], nil)
-			}
-		}
-	})
-	// verifier table  name -> (curve, width, hash)
-	c.Analysed(pec)
-	type row struct{ curve, width, hash string }
-	ver := map[string]row{}
-	for k, blk := range c.caseTable(pec, nil, func(p string) bool { return p == "$0" }) {
-		var r row
-		for _, in := range blk.Instrs {
-			if a, ok := in.(*ssa.Alloc); ok {
-				ft := c.fieldTable(a, nil)
-				if len(ft["curve"]) == 1 {
-					r.curve = ft["curve"][0]
-				}
-				if len(ft["keySize"]) == 1 {
-					r.width = ft["keySize"][0]
-				}
-				if len(ft["hash"]) == 1 {
-					r.hash = ft["hash"][0]
-				}
-			}
-		}
-		ver[unquote(k)] = r
-	}
-	wantNames := map[string]string{"P-256": "crypto/elliptic.P256()", "P-384": "crypto/elliptic.P384()", "P-521": "crypto/elliptic.P521()", "secp256k1": "github.com/btcsuite/btcd/btcec/v2.S256()"}
-	var names []string
-	for n := range ver {
-		names = append(names, n)
-	}
-	sort.Strings(names)
-	c.Check("C15.X1", "verifier:curve-names", len(ver) == 4 && reflect.DeepEqual(func() map[string]string {
-		m := map[string]string{}
-		for n, r := range ver {
-			m[n] = r.curve
-		}
-		return m
-	}(), wantNames), pec.Pos(), fmt.Sprintf("verifier curve table %v", ver))
-	for _, n := range names {
-		r := ver[n]
-		bits := curveBits[r.curve]
-		w := (bits + 7) / 8
-		c.Check("C15.X1", "width:"+n, bits > 0 && r.width == fmt.Sprint(w), pec.Pos(), fmt.Sprintf("%s: coordinate width %s (⌈%d/8⌉ = %d)", n, r.width, bits, w))
-		sh, ok := signer[r.curve]
-		c.Check("C15.X1", "hash-agreement:"+n, ok && sh == r.hash && hashName[r.hash] != "", pec.Pos(), fmt.Sprintf("%s: signer hashes with %s, verifier with %s", n, hashName[sh], hashName[r.hash]))
-	}
-	c.Check("C15.X1", "signer:curves", len(signer) == 4, getHasher.Pos(), fmt.Sprintf("signer curve→hash table %v", signer))
-	// signer width computed from the key's own curve: ceil(BitSize/8)
-	{
-		c.Analysed(sign)
-		bs := "invoke<crypto/elliptic.Curve>.Params[$0.privateKey.PublicKey.Curve]().BitSize"
-		want := "phi(((" + bs + " / 8) + 1)|(" + bs + " / 8))"
-		cp := c.Fn("util/ecsigner", "copyPadded")
-		okW := 0
-		for _, cl := range callsTo(sign, cp) {
-			if c.Path(cl.Call.Args[1], nil) == want {
-				okW++
-			}
-		}
-		inc := false
-		forEachInstr(sign, func(in ssa.Instruction) {
-			if bo, ok := in.(*ssa.BinOp); ok && c.Path(bo, nil) == "(("+bs+" % 8) > 0)" {
-				for _, e := range boolEdges(bo, true) {
-					for _, i2 := range e.to.Instrs {
-						if b2, ok2 := i2.(*ssa.BinOp); ok2 && c.Path(b2, nil) == "(("+bs+" / 8) + 1)" {
-							inc = true
-						}
-					}
-				}
-			}
-		})
-		c.Check("C15.X1", "signer:width=ceil(BitSize/8)", okW == 2 && inc, sign.Pos(), fmt.Sprintf("r and s are padded to ⌈BitSize/8⌉ of the signing key's curve (%d padded values)", okW))
-		// hash of the message with the curve's hash
-		okH := false
-		for _, cl := range findCalls(sign, func(cl *ssa.Call) bool { g := cl.Call.StaticCallee(); return g != nil && g.String() == "crypto/ecdsa.Sign" }) {
-			if strings.Contains(c.Path(cl.Call.Args[2], nil), "getHasher($0.privateKey.PublicKey.Curve)") {
-				okH = true
-			}
-		}
-		c.Check("C15.X1", "signer:digest-of-curve-hash", okH, sign.Pos(), "ecdsa.Sign receives the digest computed with getHasher(key curve)")
-		if cp != nil {
-			t := c.Path(func() ssa.Value {
-				for _, r := range returnsOf(cp) {
-					return r.Results[0]
-				}
-				return nil
-			}(), nil)
-			c.Check("C15.X1", "copyPadded", t == "makeslice<[]byte>", cp.Pos(), "copyPadded returns a fresh slice of the requested size: "+t)
-		}
 	}
 	c.Min("C15.X1", 12)
 
@@ -473,4 +368,119 @@ func runC16(c *Ctx) {
 	}
 	c.Min("C16.T1", 4)
 	c.Assume("go-jose encodes NIST and Ed25519 keys at full width; btcec.S256 parameters")
+}
+
+// signerVerifierTables: the ECDSA signer's curve→hash table and the verifier's name→(curve,width,hash)
+// table agree row by row; widths are ⌈bits/8⌉; the signer pads to ⌈BitSize/8⌉ of the key's curve.
+func (c *Ctx) signerVerifierTables(rule string) bool {
+	getHasher := c.Fn("util/ecsigner", "getHasher")
+	pec := c.Fn("jwsutil", "parseEllipticCurve")
+	sign := c.Method("util/ecsigner", "Signer", "Sign")
+	if getHasher == nil || pec == nil || sign == nil {
+		c.Unresolved(rule, "ecsigner.getHasher / jwsutil.parseEllipticCurve / (*ecsigner.Signer).Sign")
+		return false
+	}
+	// ---- X1: signer table  curve -> hash
+	c.Analysed(getHasher)
+	signer := map[string]string{}
+	forEachInstr(getHasher, func(in ssa.Instruction) {
+		bo, ok := in.(*ssa.BinOp)
+		if !ok || bo.Op != token.EQL || c.Path(bo.X, nil) != "$0" {
+			return
+		}
+		for _, e := range boolEdges(bo, true) {
+			if r, isR := e.to.Instrs[len(e.to.Instrs)-1].(*ssa.Return); isR {
+				signer[c.Path(bo.Y, nil)] = c.Path(r.Results[0], nil)
+			}
+		}
+	})
+	// verifier table  name -> (curve, width, hash)
+	c.Analysed(pec)
+	type row struct{ curve, width, hash string }
+	ver := map[string]row{}
+	for k, blk := range c.caseTable(pec, nil, func(p string) bool { return p == "$0" }) {
+		var r row
+		for _, in := range blk.Instrs {
+			if a, ok := in.(*ssa.Alloc); ok {
+				ft := c.fieldTable(a, nil)
+				if len(ft["curve"]) == 1 {
+					r.curve = ft["curve"][0]
+				}
+				if len(ft["keySize"]) == 1 {
+					r.width = ft["keySize"][0]
+				}
+				if len(ft["hash"]) == 1 {
+					r.hash = ft["hash"][0]
+				}
+			}
+		}
+		ver[unquote(k)] = r
+	}
+	wantNames := map[string]string{"P-256": "crypto/elliptic.P256()", "P-384": "crypto/elliptic.P384()", "P-521": "crypto/elliptic.P521()", "secp256k1": "github.com/btcsuite/btcd/btcec/v2.S256()"}
+	var names []string
+	for n := range ver {
+		names = append(names, n)
+	}
+	sort.Strings(names)
+	c.Check(rule, "verifier:curve-names", len(ver) == 4 && reflect.DeepEqual(func() map[string]string {
+		m := map[string]string{}
+		for n, r := range ver {
+			m[n] = r.curve
+		}
+		return m
+	}(), wantNames), pec.Pos(), fmt.Sprintf("verifier curve table %v", ver))
+	for _, n := range names {
+		r := ver[n]
+		bits := curveBits[r.curve]
+		w := (bits + 7) / 8
+		c.Check(rule, "width:"+n, bits > 0 && r.width == fmt.Sprint(w), pec.Pos(), fmt.Sprintf("%s: coordinate width %s (⌈%d/8⌉ = %d)", n, r.width, bits, w))
+		sh, ok := signer[r.curve]
+		c.Check(rule, "hash-agreement:"+n, ok && sh == r.hash && hashName[r.hash] != "", pec.Pos(), fmt.Sprintf("%s: signer hashes with %s, verifier with %s", n, hashName[sh], hashName[r.hash]))
+	}
+	c.Check(rule, "signer:curves", len(signer) == 4, getHasher.Pos(), fmt.Sprintf("signer curve→hash table %v", signer))
+	// signer width computed from the key's own curve: ceil(BitSize/8)
+	{
+		c.Analysed(sign)
+		bs := "invoke<crypto/elliptic.Curve>.Params[$0.privateKey.PublicKey.Curve]().BitSize"
+		want := "phi(((" + bs + " / 8) + 1)|(" + bs + " / 8))"
+		cp := c.Fn("util/ecsigner", "copyPadded")
+		okW := 0
+		for _, cl := range callsTo(sign, cp) {
+			if c.Path(cl.Call.Args[1], nil) == want {
+				okW++
+			}
+		}
+		inc := false
+		forEachInstr(sign, func(in ssa.Instruction) {
+			if bo, ok := in.(*ssa.BinOp); ok && c.Path(bo, nil) == "(("+bs+" % 8) > 0)" {
+				for _, e := range boolEdges(bo, true) {
+					for _, i2 := range e.to.Instrs {
+						if b2, ok2 := i2.(*ssa.BinOp); ok2 && c.Path(b2, nil) == "(("+bs+" / 8) + 1)" {
+							inc = true
+						}
+					}
+				}
+			}
+		})
+		c.Check(rule, "signer:width=ceil(BitSize/8)", okW == 2 && inc, sign.Pos(), fmt.Sprintf("r and s are padded to ⌈BitSize/8⌉ of the signing key's curve (%d padded values)", okW))
+		// hash of the message with the curve's hash
+		okH := false
+		for _, cl := range findCalls(sign, func(cl *ssa.Call) bool { g := cl.Call.StaticCallee(); return g != nil && g.String() == "crypto/ecdsa.Sign" }) {
+			if strings.Contains(c.Path(cl.Call.Args[2], nil), "getHasher($0.privateKey.PublicKey.Curve)") {
+				okH = true
+			}
+		}
+		c.Check(rule, "signer:digest-of-curve-hash", okH, sign.Pos(), "ecdsa.Sign receives the digest computed with getHasher(key curve)")
+		if cp != nil {
+			t := c.Path(func() ssa.Value {
+				for _, r := range returnsOf(cp) {
+					return r.Results[0]
+				}
+				return nil
+			}(), nil)
+			c.Check(rule, "copyPadded", t == "makeslice<[]byte>", cp.Pos(), "copyPadded returns a fresh slice of the requested size: "+t)
+		}
+	}
+
+	return true
 }
